@@ -8,7 +8,8 @@ CONSTANTS
   SigCtx = FALSE
   Plan = "std"
   MaxOpen = 2
-  Mode = "forge"
+  Mode = {"forge", "tamper", "honest"}
   MaxDiff = 1
+  Sample = FALSE
 INVARIANTS Dump
 CHECK_DEADLOCK FALSE
